@@ -933,6 +933,34 @@ def systematic(W, rng, thorough):
         out.append((g, Node(BO, f"({x.py} {sym} {y.py})", f"(XCmp {C} {x.cq} {y.cq})", [x, y], tag=f"{C[1:].lower()}:int,int", key="cmp:int,int")))
     x = P("m", I0)
     out.append((g, Node(I0, f"(-{x.py})", f"(XUn NNeg {x.cq})", [x], tag="neg:int", key="neg:int")))
+    # if-expressions, select_with (default / exhaustive), chained comparisons over leaf operands
+    g = "select"
+    for k, (n1, n2) in (("u", ("a", "b")), ("s", ("s", "t")), ("bv", ("v", "w"))):
+        T = (k, 2)
+        for cnd in (lambda: P("x", B1), lambda: P("p", BO), lambda: P("a2", ("u", 2))):
+            c, x, y = cnd(), P(f"{n1}2", T), P(f"{n2}2", T)
+            out.append((g, Node(T, f"({x.py} if {c.py} else {y.py})", f"(XIte {c.cq} {x.cq} {y.cq})", [c, x, y], tag=f"ite:{tname(c.ty)}?{k}2:{k}2", key=f"ite:{k}")))
+        sel, x, y = P("b2", ("u", 2)), P(f"{n1}2", T), P(f"{n2}2", T)
+        z0 = const_node(T, 1)
+        out.append((g, Node(T, f"cohdl.select_with({sel.py}, {{1: {x.py}, 2: {y.py}}}, default={z0.py})",
+                            f"(XSel {sel.cq} [(1%Z, {x.cq}); (2%Z, {y.cq})] (Some {z0.cq}))", [sel, x, y, z0], tag=f"select_with:u2->{k}2", key="select_with:u",
+                            dims={"select_default"})))
+        sel, x, y = P("x", B1), P(f"{n1}2", T), P(f"{n2}2", T)
+        out.append((g, Node(T, f"cohdl.select_with({sel.py}, {{Bit(False): {x.py}, Bit(True): {y.py}}})",
+                            f"(XSel {sel.cq} [(0%Z, {x.cq}); (1%Z, {y.cq})] None)", [sel, x, y], tag=f"select_with:bit->{k}2", key="select_with:bit",
+                            dims={"select_exhaustive"})))
+        sel, x, y = P("w2", ("bv", 2)), P(f"{n1}2", T), P(f"{n2}2", T)
+        out.append((g, Node(T, f'cohdl.select_with({sel.py}, {{"10": {x.py}, "01": {y.py}}}, default={y.py})',
+                            f"(XSel {sel.cq} [(2%Z, {x.cq}); (1%Z, {y.cq})] (Some {y.cq}))", [sel, x, y], tag=f"select_with:bv2->{k}2", key="select_with:bv",
+                            dims={"select_default"})))
+    for k, (n1, n2) in (("u", ("a", "b")), ("s", ("s", "t"))):
+        for (s1, c1), (s2, c2) in ((Gen.CMPS[2], Gen.CMPS[3]), (Gen.CMPS[5], Gen.CMPS[1]), (Gen.CMPS[0], Gen.CMPS[4])):
+            x, y, z = P(f"{n1}2", (k, 2)), P(f"{n2}3", (k, 3)), P(f"{n1}2", (k, 2))
+            one = int_lit(1)
+            out.append((g, Node(BO, f"({x.py} {s1} {y.py} {s2} {one.py})", f"(XChain {x.cq} [({c1}, {y.cq}); ({c2}, {one.cq})])", [x, y, one],
+                                tag=f"chain3:{k}", key=f"chain:{k}", dims={"chained_compare"})))
+            out.append((g, Node(BO, f"({one.py} {s1} {x.py} {s2} {y.py})", f"(XChain {one.cq} [({c1}, {x.cq}); ({c2}, {y.cq})])", [one, x, y],
+                                tag=f"chain3:{k}", key=f"chain:{k}", dims={"chained_compare"})))
     return out
 
 
